@@ -114,16 +114,43 @@ NEEDS = {
 }
 
 
+def confirmed(dst):
+    ver = open(os.path.join(dst, "verify.txt")).read() if os.path.exists(os.path.join(dst, "verify.txt")) else ""
+    ok = ("demo_pristine_exit: 0" in ver and re.search(r"demo_patched_exit: [1-9]", ver) and "suite_baseline_passing: 57 of 57" in ver)
+    applies = subprocess.run(["git", "-C", "/repo", "apply", "--check", os.path.join(dst, "patch.diff")]).returncode == 0
+    head = subprocess.run(["git", "-C", "/repo", "rev-parse", "--short", "HEAD"], capture_output=True, text=True).stdout.strip()
+    return ver, bool(ok), applies, {
+        "patch_applies_to_repo_head": applies, "repo_head": head, "demo_passes_on_pristine_fails_on_patched": bool(ok),
+        "repository_tests_still_pass_with_change": "57 of 57 baseline tests" if "57 of 57" in ver else "see verify.txt",
+        "verified_on": (re.search(r"date: (.*)", ver).group(1) if re.search(r"date: (.*)", ver) else None),
+        "how": "tools/verify_seeded.sh (scratch copies of /repo HEAD; demo.py on both; pytest with --ignore=tests/test_gdb.py under flock)"}
+
+
+def refresh_all():
+    """re-read every verify.txt (after a final verification pass against the final /repo HEAD)"""
+    import glob
+    bad = []
+    for f in sorted(glob.glob(os.path.join(VERIF, "seeded", "*", "meta.json"))):
+        dst = os.path.dirname(f)
+        m = json.load(open(f))
+        ver, ok, applies, conf = confirmed(dst)
+        m["confirmed"] = conf
+        json.dump(m, open(f, "w"), indent=1)
+        if not (ok and applies):
+            bad.append(m["id"])
+    print("refreshed; not fully confirmed:", bad)
+
+
 def main():
+    if sys.argv[1] == "--refresh-confirmed":
+        return refresh_all()
     src, sid, prop, checks = sys.argv[1], sys.argv[2], sys.argv[3], sys.argv[4].split(",")
     dst = os.path.join(VERIF, "seeded", sid)
     os.makedirs(dst, exist_ok=True)
     for f in ("patch.diff", "demo.py", "notes.md", "verify.txt"):
-        if os.path.exists(os.path.join(src, f)):
+        if os.path.exists(os.path.join(src, f)) and os.path.abspath(src) != os.path.abspath(dst):
             shutil.copy(os.path.join(src, f), os.path.join(dst, f))
-    ver = open(os.path.join(dst, "verify.txt")).read() if os.path.exists(os.path.join(dst, "verify.txt")) else ""
-    ok = ("demo_pristine_exit: 0" in ver and re.search(r"demo_patched_exit: [1-9]", ver) and "suite_baseline_passing: 57 of 57" in ver)
-    applies = subprocess.run(["git", "-C", "/repo", "apply", "--check", os.path.join(dst, "patch.diff")]).returncode == 0
+    ver, ok, applies, conf = confirmed(dst)
     detection = {}
     for c in checks:
         p = subprocess.run([os.path.join(VERIF, "tools", "try_patch.sh"), os.path.join(dst, "patch.diff"), c], capture_output=True, text=True)
@@ -132,11 +159,10 @@ def main():
     meta = {
         "id": sid,
         "property_broken": prop,
-        "origin": "fresh sub-agent given only the property text and a scratch worktree" + (" (second round, asked for a different mechanism)" if sid.endswith("b") else ""),
+        "origin": "fresh sub-agent given only the property text and a scratch worktree" + (
+            " (round %d, asked for a mechanism different from the earlier ones)" % (" bcdefg".index(sid[3]) + 1) if len(sid) > 3 else " (round 1)"),
         "needs_to_manifest": NEEDS.get(sid, ""),
-        "confirmed": {"patch_applies_to_repo_head": applies, "demo_passes_on_pristine_fails_on_patched": bool(ok),
-                      "repository_tests_still_pass_with_change": "57 of 57 baseline tests" if "57 of 57" in ver else "see verify.txt",
-                      "how": "tools/verify_seeded.sh (scratch copies of /repo HEAD; demo.py on both; pytest with --ignore=tests/test_gdb.py under flock)"},
+        "confirmed": conf,
         "detected_by": detection,
     }
     with open(os.path.join(dst, "meta.json"), "w") as f:
